@@ -502,7 +502,7 @@ def main():
     base = lib_c20.synthetic_db()
 
     classes = {}
-    CAP = 6
+    CAP = 3
 
     def fail_file(key, what, data, outcome, rerun, extra=None):
         """at most CAP reports per (family, outcome, first difference) class; the rest of a
